@@ -495,8 +495,32 @@ def _extension_classes(side):
     return refs
 
 
+# The classes each side's extension list dispatches to, written down here (pinned tree) rather than read from the
+# dispatch table alone: a generator that asks the code under test what to generate follows it into its mistakes.
+_SIDE_CLASSES = {
+    'client': (
+        'TlsExtensionApplicationLayerProtocolNegotiation', 'TlsExtensionApplicationLayerProtocolSettings',
+        'TlsExtensionChannelId', 'TlsExtensionCompressCertificate', 'TlsExtensionEncryptThenMAC',
+        'TlsExtensionExtendedMasterSecret', 'TlsExtensionRenegotiationInfo', 'TlsExtensionNextProtocolNegotiationClient',
+        'TlsExtensionPadding', 'TlsExtensionServerNameClient', 'TlsExtensionSessionTicket',
+        'TlsExtensionCertificateStatusRequestClient', 'TlsExtensionEllipticCurves', 'TlsExtensionDelegatedCredentials',
+        'TlsExtensionECPointFormats', 'TlsExtensionKeyShareClient', 'TlsExtensionKeyShareReservedClient',
+        'TlsExtensionPskKeyExchangeModes', 'TlsExtensionRecordSizeLimit', 'TlsExtensionShortRecordHeader',
+        'TlsExtensionSignatureAlgorithms', 'TlsExtensionSignatureAlgorithmsCert',
+        'TlsExtensionSignedCertificateTimestampClient', 'TlsExtensionSupportedVersionsClient', 'TlsExtensionTokenBinding'),
+    'server': (
+        'TlsExtensionApplicationLayerProtocolNegotiation', 'TlsExtensionChannelId', 'TlsExtensionECPointFormats',
+        'TlsExtensionEncryptThenMAC', 'TlsExtensionExtendedMasterSecret', 'TlsExtensionKeyShareClientHelloRetry',
+        'TlsExtensionKeyShareServer', 'TlsExtensionNextProtocolNegotiationServer', 'TlsExtensionRecordSizeLimit',
+        'TlsExtensionRenegotiationInfo', 'TlsExtensionServerNameServer', 'TlsExtensionSessionTicket',
+        'TlsExtensionSignedCertificateTimestampServer', 'TlsExtensionCertificateStatusRequestServer',
+        'TlsExtensionSupportedVersionsServer'),
+}
+
+
 def extension_item(side):
-    refs = [ref for ref in _extension_classes(side) if ref in _REGISTRY]
+    refs = [EXT + name for name in _SIDE_CLASSES[side] if EXT + name in _REGISTRY]
+    refs += [ref for ref in _extension_classes(side) if ref in _REGISTRY and ref not in refs]
     return st.one_of(st.sampled_from(refs).flatmap(S), st.sampled_from(refs).flatmap(S), unparsed_extension(side))
 
 
